@@ -181,32 +181,33 @@ def _convert_config_to_connection_obj(config) -> Connection:
             transport_type = value
 
         elif key == "APPLICATIONS":
-            if value:
-                if (not isinstance(value, list) or
-                        not all(isinstance(app, dict) for app in value)):
+            #: An empty list is fine; anything which is not a list (None and
+            #: other empty values included) is not.
+            if (not isinstance(value, list) or
+                    not all(isinstance(app, dict) for app in value)):
+                raise InvalidConfigValue(f"Invalid config value "\
+                                         f"'{value}' found for config "\
+                                         f"key '{key}'. It MUST be a "\
+                                         f"list of dictionaries")
+
+            for app in value:
+                app_keys = app.keys()
+                if set(app_keys) != {"vendor_id", "app_id"}:
                     raise InvalidConfigValue(f"Invalid config value "\
-                                             f"'{value}' found for config "\
-                                             f"key '{key}'. It MUST be a "\
-                                             f"list of dictionaries")
+                                             f"found for config key "\
+                                             f"'{key}'. It MUST be a "\
+                                             f"dictionary with "\
+                                             f"'vendor_id' and 'app_id' "\
+                                             f"keys")
 
-                for app in value:
-                    app_keys = app.keys()
-                    if not [key for key in app_keys if key in ["vendor_id", "app_id"]]:
+                for key in app_keys:
+                    if not isinstance(app[key], bytes):
                         raise InvalidConfigValue(f"Invalid config value "\
-                                                 f"found for config key "\
-                                                 f"'{key}'. It MUST be a "\
-                                                 f"dictionary with "\
-                                                 f"'vendor_id' and 'app_id' "\
-                                                 f"keys")
-
-                    for key in app_keys:
-                        if not isinstance(app[key], bytes):
-                            raise InvalidConfigValue(f"Invalid config value "\
-                                                     f"'{value}' found for "\
-                                                     f"config key '{key}'. It "\
-                                                     f"MUST be a dictionary "\
-                                                     f"with byte value in "\
-                                                     f"each key")
+                                                 f"'{value}' found for "\
+                                                 f"config key '{key}'. It "\
+                                                 f"MUST be a dictionary "\
+                                                 f"with byte value in "\
+                                                 f"each key")
 
 
             application_ids = value
